@@ -411,6 +411,12 @@ def o_construct(case):
             pair, want_ok, label = (x, (y + 1 + case["delta"] % (P - 2)) % P), False, "pair:off-curve"
             while CURVE.on_curve(pair):
                 pair = (x, (pair[1] + 1) % P)
+        elif kind == "pair-unreduced":
+            # a coordinate plus the field prime: satisfies the curve equation modulo p but is not a field element
+            x2, ys2 = _first_x_with_point(case["x"] % (2**32))          # small x so that x + p < 2^256
+            y2 = ys2[case["which"] % len(ys2)]
+            pair = [(x2 + P, y2), (x2, y2 + P), (x2 + P, y2 + P), (x2 - P, y2), (x2, y2 - P)][case["delta"] % 5]
+            want_ok, label = False, "pair:unreduced-coordinate"
         else:  # pair-no-point-x
             xx = _first_x_without_point(x + 1)
             pair, want_ok, label = (xx, y), False, "pair:off-curve"
@@ -448,7 +454,7 @@ def s_construct():
                      st.integers(N - 3, N + 3), st.integers(-3, 3))
     e = st.builds(lambda net, d, c: {"net": net, "kind": "exponent", "d": d, "compressed": c}, st.sampled_from(NET_CODES), exps, st.booleans())
     pk = st.builds(lambda net, kind, x, w, dl, c: {"net": net, "kind": kind, "x": x, "which": w, "delta": dl, "compressed": c},
-                   st.sampled_from(NET_CODES), st.sampled_from(["pair-none", "pair-on-curve", "pair-off-curve-y", "pair-off-curve-y", "pair-no-point-x"]),
+                   st.sampled_from(NET_CODES), st.sampled_from(["pair-none", "pair-on-curve", "pair-off-curve-y", "pair-off-curve-y", "pair-no-point-x", "pair-unreduced"]),
                    st.one_of(st.integers(0, 2**32), patterned_256().map(lambda v: v % P)), st.integers(0, 2), st.one_of(st.just(0), st.integers(0, P)),
                    st.booleans())
     return st.one_of(e, pk)
